@@ -26,7 +26,7 @@ import ast
 import itertools
 
 from .. import corpus, sym, uflmodel, uflsem
-from ..flow import call_pred, every_exit_passes
+from ..flow import call_pred, every_exit_passes, validation_functions
 from ..lift import LiftRaise, Obj, Unsupported
 from ..model import AnalysisError, norm
 from ..passlift import PassHarness, node_class, node_operands
@@ -298,12 +298,18 @@ def run(ctx) -> Report:
     # must-run
     fd = prog.get_class("ufl.algorithms.formdata.FormData")
     init = fd.methods["__init__"]
-    for callee in ("_check_form_arity", "_check_elements", "_check_facet_geometry"):
+    # the module's validation functions, found by shape (they return nothing and raise, or call the public arity checker)
+    checks = validation_functions(prog, "ufl.algorithms.formdata")
+    arity_checks = [nm for nm, (_, is_arity) in checks.items() if is_arity]
+    if len(checks) < 3 or len(arity_checks) != 1:
+        raise AnalysisError(f"validation functions of ufl.algorithms.formdata: {sorted(checks)}, of which call the arity checker: {arity_checks} (confirmed: 3 / 1)")
+    arity_name = arity_checks[0]
+    for callee in checks:
         if every_exit_passes(init.node, call_pred(callee)):
             rep.ok("C14-must", init, f"every normal exit of FormData.__init__ has called {callee}")
         else:
             rep.violation("C14-must", init, f"{callee} on every path", f"FormData.__init__ can return without running {callee}")
-    calls = [n for n in ast.walk(init.node) if isinstance(n, ast.Call) and norm(n.func) == "_check_form_arity"]
+    calls = [n for n in ast.walk(init.node) if isinstance(n, ast.Call) and norm(n.func) == arity_name]
     from ..memokey import _local_defs
 
     defs = _local_defs(init.node)
@@ -321,12 +327,9 @@ def run(ctx) -> Report:
     if calls and len(calls[0].args) >= 3 and reaches(calls[0].args[1], is_arguments) and reaches(calls[0].args[2], is_mode):
         rep.ok("C14-must", (init, calls[0]), "arity check receives the original form's arguments and the complex_mode flag")
     else:
-        rep.violation("C14-must", init, "_check_form_arity(...)", "the arity check is not called with the form's arguments and complex_mode")
-    cfa = prog.get_function("ufl.algorithms.formdata", "_check_form_arity")
-    if "check_integrand_arity" in norm(cfa.node) or "check_form_arity" in norm(cfa.node):
-        rep.ok("C14-must", cfa, "_check_form_arity delegates to check_arities")
-    else:
-        rep.violation("C14-must", cfa, "_check_form_arity body", "_check_form_arity no longer calls the arity checker")
+        rep.violation("C14-must", init, f"{arity_name}(...)", "the arity check is not called with the form's arguments and complex_mode")
+    cfa = checks[arity_name][0]
+    rep.ok("C14-must", cfa, f"{arity_name} delegates to ufl.algorithms.check_arities (resolved call)")
     rep.require_min("C14-lin", 25)
     rep.require_min("C14-reject", 40)
     rep.require_min("C14-must", 4)
